@@ -16,10 +16,18 @@ with ThreadPoolExecutor(max_workers=10) as ex:
         r = fu.result()
         rel = os.path.relpath(p, root)
         prop = rel.split('/')[0].split('_')[0]
+        mp = os.path.join(os.path.dirname(p), 'meta.json')
+        was = None
+        if os.path.exists(mp):
+            mj = json.load(open(mp))
+            prop = mj.get('property', prop)
+            was = (mj.get('checker') or {}).get('target_property_fails')
         if r['status'] != 'analysed':
             print('%-22s %s %s' % (rel, r['status'], r.get('log', '')[-200:]))
             continue
         hit = prop in r['props_failed']
+        if was and not hit:
+            print('REGRESSION %s: target property %s was reported when the seed was imported, not any more' % (rel, prop))
         print('%-22s %-8s props_failed=%s rules=%s missing=%s' % (rel, 'CAUGHT' if hit else ('other' if r['props_failed'] else 'MISSED'), r['props_failed'], sorted(r['violated']), r['missing'][:2]))
         for rid, ks in r['violated'].items():
             for k in ks[:2]:
